@@ -96,6 +96,75 @@ Section Conformal.
   Definition lbs_system (A : coo K) (lm : list (nat * C)) : coo K :=
     filter (fun '(i, j, _) => negb (is_lm lm i) && negb (is_lm lm j)) A ++ map (fun p => (fst p, fst p, one o)) lm.
 
+
+  (* ---------------------------------------------------------------- spherical_conformal_map: north-pole stage *)
+  (* np.argmax: index of the first maximum *)
+  Fixpoint argmax_from (l : list K) (i : nat) (best : nat) (bv : K) : nat :=
+    match l with [] => best | x :: tl => if ltb o bv x then argmax_from tl (S i) i x else argmax_from tl (S i) best bv end.
+  Definition argmax_first (l : list K) : nat := match l with [] => 0 | x :: tl => argmax_from tl 1 0 x end.
+  (* rows of the three corners of the big triangle replaced by unit rows *)
+  Definition north_system (A : coo K) (fixed : list nat) : coo K :=
+    filter (fun '(i, _, _) => negb (memn i fixed)) A ++ map (fun i => (i, i, one o)) fixed.
+  (* planar position of the third corner: first two at (0,0), (1,0) *)
+  Definition bigtri_third (p0 p1 p2 : vec3 K) : C :=
+    let a := vsub o p1 p0 in let b := vsub o p2 p0 in
+    let sin1 := norm o (cross o a b) / (norm o a * norm o b) in
+    let ori_h := norm o b * sin1 in
+    let ratio := one o / norm o a in
+    let y2 := ori_h * ratio in
+    (sqrtK o (norm o b * norm o b * (ratio * ratio) - y2 * y2), y2).
+  Definition north_rhs (n p0 p1 p2 : nat) (third : C) : list C :=
+    map (fun i => if Nat.eqb i p2 then third else if Nat.eqb i p1 then (one o, zero o) else czero) (iota n).
+  Definition cabs (z : C) : K := sqrtK o (fst z * fst z + snd z * snd z).
+  Definition csub (a b : C) : C := (fst a - fst b, snd a - snd b).
+  Definition cmean (l : list C) : C :=
+    let n := ofZ o (Z.of_nat (length l)) in (sumK o (map fst l) / n, sumK o (map snd l) / n).
+  Definition south_plane1 (p : vec3 K) : C := (vx p / (one o + vz p), vy p / (one o + vz p)).
+  Definition tri_side_mean (z : list C) (t : tri) : K :=
+    let '(a, b, c) := t in
+    let za := nth a z czero in let zb := nth b z czero in let zc := nth c z czero in
+    (cabs (csub za zb) + cabs (csub zb zc) + cabs (csub zc za)) / ofZ o 3.
+  (* first index of the smallest key among the triangles other than the big one *)
+  Fixpoint argmin_skip (keys : list K) (skip : nat) (i : nat) (best : option (nat * K)) : nat :=
+    match keys with
+    | [] => match best with Some (b, _) => b | None => 0 end
+    | x :: tl =>
+        if Nat.eqb i skip then argmin_skip tl skip (S i) best
+        else match best with
+             | Some (b, bv) => if ltb o x bv then argmin_skip tl skip (S i) (Some (i, x)) else argmin_skip tl skip (S i) best
+             | None => argmin_skip tl skip (S i) (Some (i, x))
+             end
+    end.
+  (* from the solver's answer z (before centring) to the rescaled planar map and the sphere points *)
+  Definition north_rescale (ts : list tri) (bigtri : nat) (z0 : list C) : list C * list (vec3 K) :=
+    let m := cmean z0 in
+    let z := map (fun w => csub w m) z0 in
+    let S := map inverse_stereographic1 z in
+    let w := map south_plane1 S in
+    let keys := map (fun '(a, b, c) => cabs (nth a z czero) + cabs (nth b z czero) + cabs (nth c z czero)) ts in
+    let inner := argmin_skip keys bigtri 0 None in
+    let north := tri_side_mean z (nth bigtri ts (0, 0, 0)) in
+    let south := tri_side_mean w (nth inner ts (0, 0, 0)) in
+    let f := sqrtK o (north * south) / north in
+    let z' := map (fun q => (fst q * f, snd q * f)) z in
+    (z', map inverse_stereographic1 z').
+  (* south-pole stage input: planar points P (third coordinate 0) and the number of landmarks max(round(nv/10), 3) *)
+  Definition south_points (S : list (vec3 K)) : list (vec3 K) := map (fun p => (vx p / (one o + vz p), vy p / (one o + vz p), zero o)) S.
+  Definition round_half_even_div10 (n : nat) : nat :=
+    let q := Nat.div n 10 in let r := Nat.modulo n 10 in
+    if Nat.ltb r 5 then q else if Nat.ltb 5 r then S q else (if Nat.even q then q else S q).
+  Definition fixnum (nv : nat) : nat := Nat.min nv (Nat.max (round_half_even_div10 nv) 3).
+
+
+  (* ---------------------------------------------------------------- mobius_area_correction_spherical: the returned map,
+     given the parameters x found by the optimiser (an oracle): f(z) = ((x0 + i x1) z + (x2 + i x3)) / ((x4 + i x5) z + (x6 + i x7)) *)
+  Definition cdiv (a b : C) : C :=
+    let d := fst b * fst b + snd b * snd b in
+    ((fst a * fst b + snd a * snd b) / d, (snd a * fst b - fst a * snd b) / d).
+  Definition mobius1 (ca cb cc cd : C) (z : C) : C := cdiv (cadd (cmul ca z) cb) (cadd (cmul cc z) cd).
+  Definition mobius_result (ca cb cc cd : C) (mapping : V) : V :=
+    map (fun u => inverse_stereographic1 (mobius1 ca cb cc cd (stereographic1 u))) mapping.
+
   Context (csolve : nat -> coo K -> list C -> result (list C)).     (* real matrix, complex right-hand side *)
   Definition linear_beltrami_solver (v : V) (ts : list tri) (mus : list C) (lm : list (nat * C)) : result (list C) :=
     if negb (planar v) then Err ValueError
